@@ -107,7 +107,8 @@ class Behaviour:
                     dst = (n + 1) % nn
             return ["send", msg, dst]
         if op == "goto":
-            q = lattice(r)
+            # with a waypoint alphabet the same target is revisited (goto T, goto U, goto T again)
+            q = tuple(r.choice(p["waypoints"])) if p.get("waypoints") else lattice(r)
             return ["goto", fbits(q[0]), fbits(q[1]), fbits(q[2])]
         if op == "gotoGeo":
             ref = p.get("geoRef", (0.0, 0.0, 0.0))
